@@ -249,3 +249,28 @@ Theorem nj_step_sound : forall pool n next,
        (2 < n -> (l0 == a0)%Q /\ (l1 == a1)%Q)).
 Proof. exact nj_step_sound_l. Qed.
 Print Assumptions nj_step_sound.
+
+(* The loops stay inside their fuel and never fail: on a matrix that has an entry for every ordered
+   pair of the (distinct, at least one) taxa iterated, symmetric for NJ, nj_tree and upgma_tree return
+   a tree; the invariants uwf / jwf of the step theorems hold initially (proved in
+   Proofs/C14Clu.v: nj_init_wf, upgma_init_wf) and after every step, so the soundness clauses
+   apply at every iteration.  With no taxa at all both raise IndexError (node_pool[0]). *)
+Theorem clustering_total : forall M order,
+  NoDup order -> order <> [] -> mcomplete M order ->
+  (msymmetric M order -> exists T, nj_tree M order = Ok T) /\
+  (exists T, upgma_tree M order = Ok T) /\
+  nj_tree M [] = Err IndexErr /\ upgma_tree M [] = Err IndexErr.
+Proof.
+  exact (fun M order N Ne C =>
+           conj (fun S => nj_tree_total_l M order N Ne C S)
+                (conj (upgma_tree_total_l M order N Ne C) (conj eq_refl eq_refl))).
+Qed.
+Print Assumptions clustering_total.
+
+(* in particular on the distance (or step-count) matrix of every tree, in any iteration order *)
+Theorem clustering_total_on_trees : forall t p w order,
+  good_leaves t -> t_kids t <> [] -> compile_from_tree t = Ok p ->
+  NoDup order -> order <> [] -> (forall a, In a order -> In (Some a) (leaf_taxa t)) ->
+  (exists T, nj_tree (qtable p w) order = Ok T) /\ (exists T, upgma_tree (qtable p w) order = Ok T).
+Proof. exact clustering_total_p. Qed.
+Print Assumptions clustering_total_on_trees.
